@@ -22,6 +22,7 @@ def rd(ctx, N, M=16, B=4, K=1, qN=None, tiers=("quick", "thorough"), labels=None
     r["params"]["B2"] = 1
     r["params"]["SPLITBACK"] = 3
     r["params"]["TAIL"] = 0
+    r["params"]["TAILLO"] = 0
     if tN is not None:
         r["thorough"] = {"N": tN}
     elif harness == "VerifRdOracle":
@@ -219,8 +220,8 @@ CHECKS["C18"] = {
     "level": "model_checking",
     "runs": [dict(rd(c, n, M=16, labels=["C18:"], covers=["ran"], harness="VerifAsmDiff"), tags="verif", native_configs=[["verif", None]], maxdec=4000) for (c, n) in [(0, 2), (1, 2), (2, 1), (3, 1)]] +
             [dict(rd(c, n, M=16, labels=["C18:"], covers=["ran"], harness="VerifAsmDiff", tiers=["thorough"]), tags="verif", native_configs=[["verif", None]], maxdec=4000) for (c, n) in [(2, 2), (0, 3), (3, 2)]] +
-            [dict(rd(4, 2, M=300, K=k, labels=["C18:"], covers=["ran"], harness="VerifAsmDiff", tiers=tiers, extra={"TAIL": t}), tags="verif", native_configs=[["verif", None]], maxdec=4000)
-             for (k, t, tiers) in [(2, 5, ["quick", "thorough"]), (1, 3, ["thorough"]), (3, 7, ["thorough"]), (8, 6, ["thorough"])]],
+            [dict(rd(4, 2, M=24, K=k, labels=["C18:"], covers=["ran"], harness="VerifAsmDiff", tiers=tiers, extra={"TAILLO": lo, "TAIL": hi}), tags="verif", native_configs=[["verif", None]], maxdec=4000)
+             for (k, lo, hi, tiers) in [(2, 9, 11, ["quick"]), (2, 0, 24, ["thorough"]), (1, 0, 24, ["thorough"]), (5, 0, 24, ["thorough"])]],
     "assumptions": ["decode direction only: decodeHuffmanAsmArchV3 is executed from the current decode_amd64.s by asmsym (engine/asm.go: 33 mnemonics, flags as last compare/result, memory operands through the byte-granular heap so that displacements are reads of the Go struct layout); the AVX2/AVX-512 encoders and the LZ77 assembly are outside",
                     "the window sits inside a block followed by >= 40 concrete bytes so that the assembly fast path is entered; acceleration level is switched by assigning cpu.ArchLevel in the harness (0 vs 3)"],
 }
